@@ -473,6 +473,84 @@ async fn config_wiring(report: &mut Report) {
     }
 }
 
+/// The same through the configuration as an operator writes it: a `proxy_protocol` section that names
+/// only one of the two switches (the other keeps its default: allowed), read by `Config::read()`.
+async fn config_file_wiring(report: &mut Report) {
+    let cases: [(&str, &str, &[(&str, &str)], bool, bool); 4] = [
+        ("file-allow_v1-false-only", "proxy_protocol:\n  allow_v1: false\n", &[], false, true),
+        ("file-allow_v2-false-only", "proxy_protocol:\n  allow_v2: false\n", &[], true, false),
+        ("env-allowv1-false-only", "", &[("PASSAGE_PROXYPROTOCOL_ALLOWV1", "false")], false, true),
+        ("file-both-named", "proxy_protocol:\n  allow_v1: true\n  allow_v2: false\n", &[], true, false),
+    ];
+    for (name, section, env, expect_v1, expect_v2) in cases {
+        let port = tcp::free_port();
+        let addr: SocketAddr = format!("127.0.0.1:{port}").parse().expect("addr");
+        let dir = std::path::PathBuf::from(std::env::var("VERIF_ROOT").unwrap_or_else(|_| "/verif".into())).join(".run").join(format!("c15-{}-{port}", std::process::id()));
+        if std::fs::create_dir_all(&dir).is_err() {
+            report.inconclusive("could not create a scratch directory for a configuration file");
+            continue;
+        }
+        let cfg_path = dir.join("config.yaml");
+        let _ = std::fs::write(&cfg_path, format!("address: \"{addr}\"\ntimeout: 3\n{section}"));
+        let config = {
+            let _g = crate::c14::ENV_LOCK.lock().unwrap_or_else(|e| e.into_inner());
+            // SAFETY: only read by Config::read() below, under the same lock
+            unsafe {
+                std::env::set_var("CONFIG_FILE", &cfg_path);
+                std::env::set_var("AUTH_SECRET_FILE", dir.join("no-such-file"));
+                for (k, v) in env {
+                    std::env::set_var(k, v);
+                }
+            }
+            let res = passage::config::Config::read();
+            unsafe {
+                std::env::remove_var("CONFIG_FILE");
+                std::env::remove_var("AUTH_SECRET_FILE");
+                for (k, _) in env {
+                    std::env::remove_var(k);
+                }
+            }
+            res
+        };
+        let _ = std::fs::remove_dir_all(&dir);
+        let config = match config {
+            Ok(c) => c,
+            Err(e) => {
+                report.inconclusive(&format!("config/{name}: Config::read failed: {e}"));
+                continue;
+            }
+        };
+        std::thread::spawn(move || {
+            let rt = tokio::runtime::Builder::new_multi_thread().worker_threads(2).enable_all().build().expect("runtime");
+            let _ = rt.block_on(passage::start(config));
+        });
+        if !tcp::wait_listening(addr, Duration::from_secs(10)).await {
+            report.inconclusive("a listener started from a configuration file did not come up");
+            continue;
+        }
+        let mut trace = vec![];
+        for (version, expect) in [(1, expect_v1), (2, expect_v2)] {
+            let src: SocketAddr = format!("198.51.100.{}:40000", 30 + version).parse().expect("addr");
+            let c = Conn { peer_ip: "127.0.0.1".parse().expect("ip"), header: if version == 1 { Header::V1(src) } else { Header::V2(src) }, login: false };
+            // the header kinds are built for a listener that allows both; what is allowed is the question
+            let Ok((end, log)) = one_connection(addr, &c, Some((true, true)), 7200 + version as u64).await else {
+                report.inconclusive(&format!("config/{name}: connect failed"));
+                continue;
+            };
+            let served = log.count("StatusResponse") > 0;
+            end.kill();
+            report.eval(Some(&format!("config/{name}/v{version}")));
+            report.count("connections through passage::start(Config::read())", 1);
+            trace.push(json!({"header": format!("v{version}"), "served": served, "expected_served": expect}));
+            if served != expect {
+                let sig = if expect { format!("config-wiring/allowed-version-refused/v{version}") } else { format!("config-wiring/disabled-version-served/v{version}") };
+                report.violation(&sig, &format!("listener from a configuration whose proxy_protocol section says {section:?} {env:?}: a v{version} header was {}, expected {}", if served { "served" } else { "not served" }, if expect { "served" } else { "not served" }), json!({"configuration": name, "section": section, "environment": format!("{env:?}"), "trace": trace}));
+            }
+        }
+        report.sample(json!({"configuration": name, "trace": trace}));
+    }
+}
+
 pub async fn run(cli: &Cli, report: &mut Report) {
     let seqs = generate(cli);
     let futs: Vec<_> = seqs.iter().map(run_seq).collect();
@@ -503,6 +581,7 @@ pub async fn run(cli: &Cli, report: &mut Report) {
         }
     }
     config_wiring(report).await;
+    config_file_wiring(report).await;
     if cli.prop == "C15" {
         crate::c08net::run(cli, report).await;
     }
